@@ -257,8 +257,28 @@ impl IfStatement {
     }
 
     /// Filters branches in-place, ensuring at least one branch remains.
-    pub fn retain_branches_mut(&mut self, filter: impl FnMut(&mut IfBranch) -> bool) -> bool {
-        self.branches.retain_mut(filter);
+    pub fn retain_branches_mut(&mut self, mut filter: impl FnMut(&mut IfBranch) -> bool) -> bool {
+        let mut index = 0;
+        let mut first_branch_removed = false;
+        self.branches.retain_mut(|branch| {
+            let keep = filter(branch);
+            if index == 0 && !keep {
+                first_branch_removed = true;
+            }
+            index += 1;
+            keep
+        });
+
+        if first_branch_removed {
+            // the branch that becomes the first one brings its own `then` keyword
+            if let (Some(tokens), Some(branch_tokens)) = (
+                self.tokens.as_mut(),
+                self.branches.first().and_then(IfBranch::get_tokens),
+            ) {
+                tokens.then = branch_tokens.then.clone();
+            }
+        }
+
         if self.branches.is_empty() {
             // an if statement requires at least one branch
             self.branches.push(IfBranch::new(false, Block::default()));
